@@ -8,6 +8,7 @@ package props
 // and demand the verdict of a fresh call.
 
 import (
+	"strings"
 	"sync"
 
 	psatoken "github.com/veraison/psatoken"
@@ -28,6 +29,7 @@ var polluteNames = []string{
 	"encode+sign-other-claims",
 	"codec-rejected-inputs",
 	"decode-cose-garbage+other-token",
+	"derived-profile-documents-refused-midway",
 }
 
 func pollute(kind int) {
@@ -83,6 +85,24 @@ func pollute(kind int) {
 		_ = encoding.PopulateStructFromCBOR(extDM, []byte{0xa2, 0x01, 0x00, 0x01, 0x01}, &popFlat{})
 		_ = encoding.PopulateStructFromCBOR(extDM, []byte{0xa1, 0x61, 0x78, 0x00}, &popEmb2{})
 		_, _ = encoding.SerializeStructToJSON(&popFlat{})
+	case 10:
+		// documents of a registered derived profile that carry every optional claim and are refused while their fields are
+		// being converted (damaged base64 / wrong type near the end), in JSON and in CBOR
+		ext := *cl[3]
+		ext.Canon, ext.Profile = ExtP2Name, sp(ExtP2Name)
+		js := strings.Replace(string(wireJSON(&ext)), "{", `{"extra":7,`, 1)
+		_, _ = psatoken.DecodeClaimsFromJSON([]byte(strings.Replace(js, b64(*ext.InstID)[:8], "****"+b64(*ext.InstID)[4:8], 1)))
+		_, _ = psatoken.DecodeClaimsFromJSON([]byte(strings.Replace(js, `"extra":7`, `"extra":"seven"`, 1)))
+		t := wireTree(&ext, true)
+		t.Put(mcbor.I(-75100), mcbor.T("seven"))
+		_, _ = psatoken.DecodeClaimsFromCBOR(mcbor.Encode(t))
+		t2 := wireTree(&ext, true)
+		for i, p := range t2.Pairs {
+			if k, _ := p[0].Int(); k == 256 {
+				t2.Pairs[i][1] = mcbor.T("not-bytes")
+			}
+		}
+		_, _ = psatoken.DecodeClaimsFromCBOR(mcbor.Encode(t2))
 	case 9:
 		ev := &psatoken.Evidence{}
 		_ = ev.UnmarshalCOSE([]byte{0xd2, 0x84, 0x40, 0xa0, 0xf6, 0x40})
